@@ -541,7 +541,7 @@ class PoolScenario(object):
     def generate(self, rng):
         return gen_program(rng, self.focus)
 
-    def run(self, program, decider):
+    def run(self, program, decider, chooser=None):
         s, run, verdict = poolsim.execute(program, decider)
         viol, h = analyse(program, s.log, verdict, s.thread_errors)
         stats = {
